@@ -644,6 +644,60 @@ fn main() {
     }
     res.cov("two_destinations_one_address_cases", two_dest_cases);
 
+    // ---- family: the client of an attributed connection resets it before the proxy has served it (the proxy's worker
+    // threads are held for a moment, as when they are descheduled: the reset arrives while the connection waits in the accept
+    // queue or between accept and the first look at it); its record is consumed all the same, and a direct connection that
+    // takes the freed source port is unattributed
+    let mut reset_early_cases = 0u64;
+    {
+        let hosts = cx.w.hosts.all();
+        let p6 = 41800u16;
+        let root = AuditRec::to(WS, 0, cx.root_pid, true);
+        for hold_ms in [40u64, 120] {
+            for linger_before_reset_ms in [0u64, 5] {
+                for k in 0..(if thorough { 6 } else { 3 }) {
+                    let port = p6 + k;
+                    cx.w.clear_audit();
+                    let cur = cx.w.hosts.cursors();
+                    for _ in 0..4 {
+                        cx.w.rt.spawn(async move {
+                            std::thread::sleep(Duration::from_millis(hold_ms));
+                        });
+                    }
+                    std::thread::sleep(Duration::from_millis(5));
+                    match cx.w.connect(Some(port), Some(&root)) {
+                        Ok(c) => {
+                            std::thread::sleep(Duration::from_millis(linger_before_reset_ms));
+                            c.close(); // RST
+                        }
+                        Err(e) => vcommon::result::machinery(&format!("connect from {port}: {e}")),
+                    }
+                    std::thread::sleep(Duration::from_millis(hold_ms + 60));
+                    let _ = cx.sentinel();
+                    let left = cx.w.audit_present(port);
+                    // the freed port, no record
+                    let st = cx.w.connect(Some(port), None).map_err(|e| e.to_string()).and_then(|mut c| {
+                        let r = c.send(&build_request("GET", "/early/reset", &[("Host", b"h")], None, None)).map_err(|e| e.to_string()).and_then(|_| c.read_response(false, Duration::from_secs(10)).map(|m| m.status()));
+                        c.close();
+                        r
+                    });
+                    reset_early_cases += 1;
+                    let upstream: usize = hosts.iter().enumerate().map(|(i, h)| h.requests_since(cur[i]).iter().filter(|(_, m)| m.target() == "/early/reset").count()).sum();
+                    if left || st != Ok(421) || upstream != 0 {
+                        res.violation(
+                            "record-not-consumed-at-accept:client-reset-before-served",
+                            &format!("an attributed connection from port {port} was reset by its client {linger_before_reset_ms} ms after connecting while the proxy's workers were held for {hold_ms} ms; afterwards its record is {}; a direct connection from the same port got {:?} (want 421), {upstream} request(s) upstream", if left { "still in the audit map" } else { "gone" }, st),
+                            json!({"family": "client-resets-before-served", "hold_ms": hold_ms, "reset_after_ms": linger_before_reset_ms, "port": port}),
+                        );
+                    }
+                    cx.w.clear_audit();
+                    let _ = cx.sentinel();
+                }
+            }
+        }
+    }
+    res.cov("client_resets_before_served_cases", reset_early_cases);
+
     // ---- family: the rules a request is judged by are those of its connection's recorded destination, whatever port the
     // request target (absolute-form) names: endpoint X refuses everything (enforce, default deny, no grants), endpoint Y on the
     // same address has no rules
